@@ -324,3 +324,72 @@ Fixpoint skip_pending_of {A : Type} (ps : list (@looked A)) : list A :=
 
 Definition skip_evm_exec (mid : string) (cap tg : N) (ps : list (@looked (N * option N))) : list (list N * list string) :=
   evm_sessions mid (evm_pack cap tg (skip_pending_of ps)).
+
+(* ---- retry paths: which retried deposits are grouped together, and in which order ---------------------- *)
+
+(* chains/evm/listener/eventHandlers/retry.go  RetryV1EventHandler.HandleEvents
+     for _, event := range retryEvents {                       the Retry logs of the range, log order
+       deposits := FetchRetryDepositEvents(event, ...)           the Deposit logs of the retried transaction, log order
+       for _, d := range deposits {
+         messageID := fmt.Sprintf("retry-%d-%d-%d-%d", domainID, d.DestinationDomainID, startBlock, endBlock)
+         msg := HandleDeposit(...); if executed { return }
+         retriesByDomain[msg.Destination] = append(retriesByDomain[msg.Destination], msg) } }
+     for _, retries := range retriesByDomain { eh.msgChan <- retries }
+   chains/substrate/listener/event-handlers.go  RetryEventHandler.HandleEvents: the same loop over the Retry
+     events of the range and the Deposit events of the block each of them names.
+   A retry event is given by the deposits it makes the handler look at (the same transaction / block named
+   twice = the same deposits twice): destination, deposit nonce, already executed. *)
+Definition rdep := (N * N * bool)%type.
+Definition rd_dest (d : rdep) : N := fst (fst d).
+Definition rd_nonce (d : rdep) : N := snd (fst d).
+Definition rd_live (d : rdep) : bool := negb (snd d).
+
+Definition retry_msgs (evs : list (list rdep)) : list rdep := filter rd_live (List.concat evs).
+
+(* the Go map retriesByDomain after the loops *)
+Definition retry_groups (evs : list (list rdep)) : list (N * list rdep) := group rd_dest (retry_msgs evs).
+
+Definition retry_message_id (src dst s e : Z) : string := ("retry-" ++ message_id src dst s e)%string.
+
+(* a message group as it arrives on the message channel: message id, destination, deposit nonces in order *)
+Definition mgroup := (string * N * list N)%type.
+
+(* the destinations that occur, ascending (the runner sorts the observed groups by destination) *)
+Fixpoint ins_u (x : N) (l : list N) : list N :=
+  match l with
+  | [] => [x]
+  | y :: r => if (x <? y)%N then x :: l else if (x =? y)%N then l else y :: ins_u x r
+  end.
+
+Definition dests_sorted (ds : list N) : list N := fold_right ins_u [] ds.
+
+(* what a retry event handler sends for the range [s, e] *)
+Definition retry_model (src s e : Z) (evs : list (list rdep)) : list mgroup :=
+  map (fun d => (retry_message_id src (Z.of_N d) s e, d, map rd_nonce (lookup d (retry_groups evs))))
+      (dests_sorted (map rd_dest (retry_msgs evs))).
+
+Definition mg_eqb (a b : mgroup) : bool :=
+  String.eqb (fst (fst a)) (fst (fst b)) && N.eqb (snd (fst a)) (snd (fst b)) && nl_eqb (snd a) (snd b).
+
+Fixpoint list_eqb {X : Type} (eqb : X -> X -> bool) (a b : list X) : bool :=
+  match a, b with
+  | [], [] => true
+  | x :: a', y :: b' => eqb x y && list_eqb eqb a' b'
+  | _, _ => false
+  end.
+
+Definition mgl_eqb : list mgroup -> list mgroup -> bool := list_eqb mg_eqb.
+Definition mgll_eqb : list (list mgroup) -> list (list mgroup) -> bool := list_eqb mgl_eqb.
+
+Definition all_same {X : Type} (eqb : X -> X -> bool) (ref : X) (runs : list X) : bool := forallb (eqb ref) runs.
+
+(* THE judge of the repeated runs of one handler on one range (Go randomises map iteration per loop): what
+   is sent - which deposits together, in which order, under which id - is the same in every repetition. *)
+Definition reps_ok (runs : list (list mgroup)) : bool :=
+  match runs with [] => true | r :: rest => all_same mgl_eqb r rest end.
+
+(* THE judge of the concurrent cases.  One long-lived handler object serves several calls (the listener's
+   scan of a range, retries of other blocks) - [seq]: what each call sent when the calls were made one after
+   the other, [runs]: what each call sent under every observed schedule in which they ran at the same time
+   (and in further sequential repetitions): no difference. *)
+Definition conc_ok (seq : list (list mgroup)) (runs : list (list (list mgroup))) : bool := all_same mgll_eqb seq runs.
